@@ -29,6 +29,7 @@ TABLE = {
  "state_check_now triggers at startup even when state_hold_false is set": ("C05", "new subsystem, state_check_now=True, state_hold_false=0, expression true at definition: no run at definition time; task.wait_until dropped state_hold_false after a true startup check (F at 2 s, T at 4 s with hold_false=6.25 returned)"),
  "legacy task.wait_until starts the state_hold_false period when the expression is false at the call": ("C05", "legacy task.wait_until(state_hold_false=0), expression false at the call, T at 2 s: never returned"),
  "unsubscribing a trigger removes its queue from every watched entity": ("C09", "function with @state_trigger(\"pyscript.a == '1' and pyscript.a.old == '0' and pyscript.b == '1'\"): after [define f, del f] a queue stayed registered under pyscript.b (for name sets whose iteration order visits pyscript.b after both names of pyscript.a)"),
+ "@service accepts several service names in the new decorator subsystem": ("C12", "new subsystem: @service(\"test.s1\", \"test.s2\") registered nothing (validation rejected more than one argument); docs: multiple arguments register multiple names"),
 }
 log = subprocess.run(["git", "-C", "/repo", "log", "--reverse", "--format=%h %s"], capture_output=True, text=True).stdout.strip().split("\n")
 fixed = []
